@@ -169,7 +169,23 @@ func (g *Gen) classExpr(depth int, ic bool, dia string) ClassExpr {
 		gap := [][2]int{{'A', 'Z'}, {'a', 'z'}, {'0', '9'}, {'K', 'K'}, {0x391, 0x3A9}, {0x212A, 0x212A}, {'A', 'z'}, {0xC0, 0xDE}}[g.pick(8)]
 		c.Rs = append(c.Rs, [2]int{0, gap[0] - 1}, [2]int{gap[1] + 1, 0x10FFFF})
 	}
-	if depth > 0 && g.chance(0.35) {
+	if g.chance(0.06) {
+		// a base that is everything, written as complementary parts (only a subtraction can remove members)
+		switch g.pick(4) {
+		case 0:
+			c.Shs = append(c.Shs, "w", "W")
+		case 1:
+			c.Shs = append(c.Shs, "s", "S")
+		case 2:
+			c.Shs = append(c.Shs, "d", "D")
+		default:
+			c.Rs = append(c.Rs, [2]int{0, 0x10FFFF})
+		}
+		if depth > 0 && len(c.Sub) == 0 {
+			c.Sub = []ClassExpr{g.classExpr(depth-1, ic, dia)}
+		}
+	}
+	if depth > 0 && len(c.Sub) == 0 && g.chance(0.35) {
 		c.Sub = []ClassExpr{g.classExpr(depth-1, ic, dia)}
 	}
 	return c
